@@ -99,6 +99,17 @@ func genH264AU(t *core.Tape, mtu int, allowParams bool, state *int) h264AU {
 var h264SharedPrefix []byte
 
 func genH264AUx(t *core.Tape, mtu int, allowParams bool, state *int, supersede bool) h264AU {
+	return genH264AUm(t, mtu, allowParams, state, supersede, nil)
+}
+
+// h264Memo remembers the last SPS/PPS pair of a stream: real encoders repeat the SAME parameter sets before
+// every IDR picture, so a quarter of the pairs of a stream with a memo are byte-identical repeats.
+type h264Memo struct {
+	sps, pps []byte
+	repeat   bool
+}
+
+func genH264AUm(t *core.Tape, mtu int, allowParams bool, state *int, supersede bool, memo *h264Memo) h264AU {
 	var au h264AU
 	n := 1 + t.Intn(6)
 	add := func(typ, nri byte, size int) {
@@ -154,7 +165,14 @@ func genH264AUx(t *core.Tape, mtu int, allowParams bool, state *int, supersede b
 			return 2 + t.Intn(base)
 		}
 		if *state == 1 {
-			add(8, byte(t.Intn(4)), psize(12))
+			if memo != nil && memo.repeat && memo.pps != nil {
+				au.units = append(au.units, append([]byte(nil), memo.pps...))
+			} else {
+				add(8, byte(t.Intn(4)), psize(12))
+				if memo != nil {
+					memo.pps = append([]byte(nil), au.units[len(au.units)-1]...)
+				}
+			}
 			*state = 2
 			continue
 		}
@@ -171,7 +189,15 @@ func genH264AUx(t *core.Tape, mtu int, allowParams bool, state *int, supersede b
 				ordinary()
 				continue
 			}
-			add(7, byte(t.Intn(4)), psize(20))
+			if memo != nil && memo.sps != nil && memo.pps != nil && t.Chance(1, 4) {
+				au.units = append(au.units, append([]byte(nil), memo.sps...))
+				memo.repeat = true
+			} else {
+				add(7, byte(t.Intn(4)), psize(20))
+				if memo != nil {
+					memo.sps, memo.pps, memo.repeat = append([]byte(nil), au.units[len(au.units)-1]...), nil, false
+				}
+			}
 			*state = 1
 		case 2:
 			add(9, 0, 2) // AUD
